@@ -17,7 +17,8 @@ from ioos_qc.streams import PandasStream
 from ioos_qc.utils import cf_safe_name
 
 WHAT = "IoosQc.C19_main (C19.holds: columns of PandasStore.save)"
-STREAM_IDS = ["v1", "v2", "temp", "sea-temp", "sea.temp", "sea temp", "2m", "_x", "a/b", "t°C", "x-1", "x.1", "Salinity_PSU"]
+STREAM_IDS = ["v1", "v2", "temp", "sea-temp", "sea.temp", "sea temp", "2m", "_x", "a/b", "t°C", "x-1", "x.1", "Salinity_PSU",
+              "temp[1]", "temp*", "t?mp", "temp_raw"]          # ids that are also shell / regex patterns (matched literally)
 NAMES = STREAM_IDS + ["", "9", "_", "é", "a__b", "A.b-c d", "123abc", "v_1", "ok_name"]
 
 
